@@ -1,0 +1,52 @@
+//go:build verif
+// +build verif
+
+// Contracts for the govc verifier (comments only; see /verif/DESIGN.md).
+package wal
+
+// ---- tokens (C19): a token is derived from the store's clock for the token generator object, read
+// AFTER that object was touched by this call; the entry is written create-if-absent under the token.
+//@ func (*WAL).updateTokenTimestamp
+//@   requires w != nil
+//@   call Touch#1 assert [generator-object] $self == w.mutableStore && $key == w.tokenGeneratorPath
+
+//@ func (*WAL).getToken
+//@   requires w != nil
+//@   call updateTokenTimestamp#1 bind te = $ret0
+//@   call GetAttr#1 assert [after-touch] te_set && te == nil && $self == w.mutableStore && $key == w.tokenGeneratorPath
+//@   call GetAttr#1 bind at = $ret0
+//@   call NewRandomWithTime#1 assert [from-store-clock] at_set && $0 == at.Updated
+
+//@ func (*WAL).Add
+//@   requires w != nil
+//@   call getToken#1 bind tok = $ret0
+//@   call NewReader#1 assert [payload-unchanged] $0 == p
+//@   call Put#1 assert [entry-under-its-token] tok_set && $self == w.walStore && $key == tok && $noOverwrite == storage.NoOverWrite
+//@   ensures [returns-token] ret1 == nil ==> tok_set && ret0 == tok
+
+//@ func (*WAL).GetExpirationDuration
+//@   ensures [ten-minutes] result == 600000000000
+
+// listing starts from a token back-dated by twice the expiration window, with the smallest payload
+//@ func (*WAL).ListTokens
+//@   requires w != nil
+//@   call Add#1 assert [look-back-window] $1 == 0 - 2 * 600000000000
+//@   call FromParts#1 assert [smallest-payload] len($1) == 16 && (forall i int :: 0 <= i && i < 16 ==> $1[i] == 0)
+//@   call String#3 bind start = $ret0
+//@   call KeysPrefix#1 assert [from-backdated-token] start_set && $self == w.walStore && $token == start && $prefix == "" && $delimiter == ""
+//@   call KeysPrefix#1 assert [bounded] 0 < $count && $count <= old(max) && $count <= 1000
+//@   call KeysPrefix#1 bind listed = $ret0
+//@   ensures [as-listed] err == nil ==> listed_set && tokens == listed
+
+// an entry read back carries the token it is stored under and the object's whole content
+//@ func (*WAL).read
+//@   call Get#1 assert [of-token] $self == w.walStore && $key == token
+//@   call Get#1 bind rd = $ret0
+//@   call ReadAll#1 assert [whole-content] rd_set && $0 == iface(rd)
+//@   call NewEntry#1 assert [under-its-token] $token == token
+//@   call NewEntry#1 bind made = $ret0
+//@   send channels.entry#1 assert [entry-as-read] made_set && $val == made
+
+//@ func (*WAL).ListEntries
+//@   requires w != nil
+//@   call ListTokens#1 assert [same-window] $fromToken == fromToken && $max == max
